@@ -1,1 +1,296 @@
-From TT Require Import Base.Prelude Base.SrtTypes Model.SrtReader Spec.SrtCueSpec.
+(* C10, tag scoping: for b/i/u tags in angle syntax (<b> <bold> <B> ...), nested and adjacent at will around
+   plain text and line breaks, the children that _TextParser builds flatten to the payload's characters,
+   each with exactly the styles of the tags that enclose it. *)
+From TT Require Import Base.Prelude Base.SrtTypes Gen.SrtTables Model.SrtReader Spec.SrtCueSpec
+  Proofs.C10.Lines Proofs.C10.Text Proofs.C10.Roundtrip.
+Local Open Scope Z_scope.
+
+(* ------------------------------------------------------------------ induction over nodes *)
+Section NodeInd.
+  Variable P : node -> Prop.
+  Variable Q : list node -> Prop.
+  Hypothesis Hc : forall c, P (NChar c).
+  Hypothesis Hr : forall r, P (NRef r).
+  Hypothesis Hb : P NBreak.
+  Hypothesis Ht : forall k sy body, Q body -> P (NTag k sy body).
+  Hypothesis Hf : forall c q body, Q body -> P (NFont c q body).
+  Hypothesis Hs : forall k sy, P (NStray k sy).
+  Hypothesis Hnil : Q [].
+  Hypothesis Hcons : forall x l, P x -> Q l -> Q (x :: l).
+  Fixpoint node_ind2 (n : node) : P n :=
+    match n with
+    | NChar c => Hc c
+    | NRef r => Hr r
+    | NBreak => Hb
+    | NTag k sy body => Ht k sy body ((fix go (l : list node) : Q l := match l with [] => Hnil | x :: l' => Hcons x l' (node_ind2 x) (go l') end) body)
+    | NFont c q body => Hf c q body ((fix go (l : list node) : Q l := match l with [] => Hnil | x :: l' => Hcons x l' (node_ind2 x) (go l') end) body)
+    | NStray k sy => Hs k sy
+    end.
+  Definition nodes_ind2 (l : list node) : Q l :=
+    (fix go (l : list node) : Q l := match l with [] => Hnil | x :: l' => Hcons x l' (node_ind2 x) (go l') end) l.
+End NodeInd.
+
+(* the nested fixes are the list versions *)
+Lemma print_tag k sy body : print_node (NTag k sy body) = open_tag k sy ++ print_nodes body ++ close_tag k sy.
+Proof. reflexivity. Qed.
+Lemma items_tag s k sy body : items s (NTag k sy body) = items_list (with_tag k s) body.
+Proof. cbn [items]. induction body as [|x l IH]; [reflexivity|]. cbn [items_list]. rewrite <- IH. reflexivity. Qed.
+Lemma angle_tag k sy body : angle_node (NTag k sy body) = negb (is_brace sy) && forallb angle_node body.
+Proof. reflexivity. Qed.
+Lemma wf_tag k sy body : wf_node (NTag k sy body) = forallb wf_node body.
+Proof. cbn [wf_node]. induction body as [|x l IH]; [reflexivity|]. cbn [forallb]. rewrite <- IH. reflexivity. Qed.
+
+Lemma flat_span inh s kids : flat inh (ESpan s kids) = flat_list (inherit inh s) kids.
+Proof. cbn [flat]. induction kids as [|x l IH]; [reflexivity|]. cbn [flat_list]. rewrite <- IH. reflexivity. Qed.
+
+(* ------------------------------------------------------------------ the zipper's flattened view *)
+Definition frames := list (sstyle * list elem).
+Fixpoint style_of (fs : frames) : sstyle :=
+  match fs with [] => st0 | (s, _) :: fs' => inherit (style_of fs') s end.
+Fixpoint view (fs : frames) (pk : list elem) : list item :=
+  match fs with
+  | [] => flat_list st0 pk
+  | (s, k) :: fs' => view fs' pk ++ flat_list (style_of fs) k
+  end.
+
+Lemma close_all_view fs : forall extra pk,
+  flat_list st0 (close_all extra fs pk) = view fs pk ++ flat_list (style_of fs) extra.
+Proof.
+  induction fs as [|[s k] fs IH]; intros extra pk; cbn [close_all view style_of].
+  - apply flat_list_app.
+  - rewrite IH. cbn [flat_list]. rewrite flat_span, app_nil_r. rewrite flat_list_app, app_assoc. reflexivity.
+Qed.
+
+Definition cur_of (c : cursor) : frames * list elem := match c with CP f p => (f, p) | CAbove _ p => ([], p) end.
+
+Lemma view_push fs pk es :
+  match push_kids fs pk es with
+  | CP fs' pk' => view fs' pk' = view fs pk ++ flat_list (style_of fs) es /\ map fst fs' = map fst fs
+  | _ => False
+  end.
+Proof.
+  destruct fs as [|[s k] fs]; cbn [push_kids view style_of].
+  - rewrite flat_list_app. auto.
+  - rewrite flat_list_app, app_assoc. auto.
+Qed.
+
+Lemma style_of_shape a : forall b, map fst a = map fst b -> style_of a = style_of b.
+Proof.
+  induction a as [|[s k] a IH]; intros [|[s' k'] b] H; try discriminate; [reflexivity|].
+  cbn [map fst] in H. injection H as H1 H2. subst. cbn [style_of]. rewrite (IH b) by auto. reflexivity.
+Qed.
+
+(* pending data flushed into the tree *)
+Definition pview (pend : text) (fs : frames) (pk : list elem) : list item :=
+  view fs pk ++ items_of_text (style_of fs) (rev pend).
+
+Lemma items_of_text_app s a b : items_of_text s (a ++ b) = items_of_text s a ++ items_of_text s b.
+Proof. unfold items_of_text. apply flat_map_app. Qed.
+
+(* handling the tokens of flushed pending data *)
+Lemma handle_flush pend fs pk ts : lacks 38 pend ->
+  exists fs' pk',
+    handle true (flush pend ++ ts) (CP fs pk) = handle true ts (CP fs' pk') /\
+    view fs' pk' = pview pend fs pk /\ map fst fs' = map fst fs.
+Proof.
+  intro A. unfold flush, pview. destruct pend as [|c pend].
+  - exists fs, pk. cbn [app rev items_of_text flat_map]. rewrite app_nil_r. auto.
+  - cbn [app handle]. rewrite unescape_id.
+    2:{ unfold lacks in *. rewrite forallb_forall in *. intros x I. apply A. apply in_rev. exact I. }
+    cbn [handle_data]. pose proof (view_push fs pk (data_kids true (split_lf (rev (c :: pend))))) as V.
+    destruct (push_kids fs pk _) as [fs' pk'|]; [|contradiction].
+    exists fs', pk'. destruct V as (V1 & V2). rewrite V1. rewrite flat_data_kids. cbn [app]. auto.
+Qed.
+
+(* ------------------------------------------------------------------ the tokenizer on angle tags *)
+Definition low_name (k : tagk) (sy : syn) : text :=
+  match k, sy with
+  | KB, (AngleShort | AngleUpper | BraceShort) => [98]
+  | KI, (AngleShort | AngleUpper | BraceShort) => [105]
+  | KU, (AngleShort | AngleUpper | BraceShort) => [117]
+  | KB, _ => t_bold
+  | KI, _ => t_italic
+  | KU, _ => t_underline
+  end.
+
+Lemma tok_open k sy pend X : is_brace sy = false ->
+  tok O pend (open_tag k sy ++ X) = flush pend ++ TStart (low_name k sy) [] :: tok O [] X.
+Proof. intro H. destruct k, sy; try discriminate; reflexivity. Qed.
+
+Lemma tok_close k sy pend X : is_brace sy = false ->
+  tok O pend (close_tag k sy ++ X) = flush pend ++ TEnd :: tok O [] X.
+Proof. intro H. destruct k, sy; try discriminate; reflexivity. Qed.
+
+Lemma tag_style_spec k sy : is_brace sy = false ->
+  tag_style (low_name k sy) [] = Ok (match k with KB => mkSt true false false None | KI => mkSt false true false None | KU => mkSt false false true None end).
+Proof. intro H. destruct k, sy; try discriminate; reflexivity. Qed.
+
+Lemma inherit_tag k outer :
+  inherit outer (match k with KB => mkSt true false false None | KI => mkSt false true false None | KU => mkSt false false true None end)
+  = with_tag k outer.
+Proof. destruct outer as [b i u c], k; unfold inherit, with_tag; cbn [st_b st_i st_u st_c]; rewrite ?orb_true_r, ?orb_false_r; reflexivity. Qed.
+
+(* ------------------------------------------------------------------ the forest lemma *)
+Definition node_goal (n : node) : Prop :=
+  angle_node n = true -> wf_node n = true ->
+  forall pend fs pk X, lacks 38 pend ->
+  exists pend' fs' pk',
+    handle true (tok O pend (print_node n ++ X)) (CP fs pk) = handle true (tok O pend' X) (CP fs' pk') /\
+    lacks 38 pend' /\ map fst fs' = map fst fs /\
+    pview pend' fs' pk' = pview pend fs pk ++ items (style_of fs) n.
+Definition nodes_goal (l : list node) : Prop :=
+  forallb angle_node l = true -> forallb wf_node l = true ->
+  forall pend fs pk X, lacks 38 pend ->
+  exists pend' fs' pk',
+    handle true (tok O pend (print_nodes l ++ X)) (CP fs pk) = handle true (tok O pend' X) (CP fs' pk') /\
+    lacks 38 pend' /\ map fst fs' = map fst fs /\
+    pview pend' fs' pk' = pview pend fs pk ++ items_list (style_of fs) l.
+
+Lemma char_step c pend fs pk X : plain_char c = true \/ c = 10 -> lacks 38 pend ->
+  tok O pend (c :: X) = tok O (c :: pend) X /\ lacks 38 (c :: pend) /\
+  pview (c :: pend) fs pk = pview pend fs pk ++ item_of_char (style_of fs) c.
+Proof.
+  intros Hc A. assert (c <> 60 /\ c <> 38) as [N1 N2] by (unfold plain_char in Hc; lia).
+  split; [|split].
+  - cbn [tok]. replace (c =? 60) with false by lia. reflexivity.
+  - unfold lacks in *. cbn [forallb]. rewrite A. replace (c =? 38) with false by lia. reflexivity.
+  - unfold pview. cbn [rev]. rewrite items_of_text_app. rewrite app_assoc. f_equal.
+    unfold items_of_text. cbn [flat_map]. rewrite app_nil_r. reflexivity.
+Qed.
+
+Lemma forest_lemma : forall l, nodes_goal l.
+Proof.
+  apply (nodes_ind2 node_goal nodes_goal); unfold node_goal, nodes_goal.
+  - (* NChar *) intros c _ W pend fs pk X A. cbn [wf_node] in W.
+    destruct (char_step c pend fs pk X (or_introl W) A) as (T & L & V).
+    exists (c :: pend), fs, pk. cbn [print_node app]. rewrite T. repeat split; auto.
+    rewrite V. cbn [items]. unfold item_of_char. replace (c =? 10) with false by (unfold plain_char in W; lia). reflexivity.
+  - (* NRef *) intros r H. discriminate.
+  - (* NBreak *) intros _ _ pend fs pk X A.
+    destruct (char_step 10 pend fs pk X (or_intror eq_refl) A) as (T & L & V).
+    exists (10 :: pend), fs, pk. cbn [print_node app]. rewrite T. repeat split; auto.
+  - (* NTag *) intros k sy body IH Ha Hw pend fs pk X A.
+    rewrite angle_tag in Ha. apply andb_true_iff in Ha as [Hs Hb]. apply negb_true_iff in Hs.
+    rewrite wf_tag in Hw. rewrite print_tag. repeat rewrite <- app_assoc.
+    rewrite tok_open by auto.
+    destruct (handle_flush pend fs pk (TStart (low_name k sy) [] :: tok O [] (print_nodes body ++ close_tag k sy ++ X)) A)
+      as (fs1 & pk1 & E1 & V1 & S1).
+    rewrite E1. cbn [handle handle_start]. rewrite tag_style_spec by auto.
+    set (stk := match k with KB => mkSt true false false None | KI => mkSt false true false None | KU => mkSt false false true None end).
+    destruct (IH Hb Hw [] ((stk, []) :: fs1) pk1 (close_tag k sy ++ X) eq_refl)
+      as (pend2 & fs2 & pk2 & E2 & A2 & S2 & V2).
+    rewrite E2. rewrite tok_close by auto.
+    destruct (handle_flush pend2 fs2 pk2 (TEnd :: tok O [] X) A2) as (fs3 & pk3 & E3 & V3 & S3).
+    rewrite E3. cbn [handle].
+    rewrite S2 in S3. cbn [map fst] in S3.
+    destruct fs3 as [|[s3 k3] fs3']; [discriminate|]. cbn [map fst] in S3. injection S3 as S3a S3b. subst s3.
+    cbn [handle_end].
+    pose proof (view_push fs3' pk3 [ESpan stk k3]) as VP.
+    destruct (push_kids fs3' pk3 [ESpan stk k3]) as [fs4 pk4|]; [|contradiction].
+    destruct VP as (V4 & S4).
+    exists [], fs4, pk4. split; [reflexivity|]. split; [reflexivity|].
+    split; [congruence|].
+    unfold pview at 1. cbn [rev items_of_text flat_map]. rewrite app_nil_r.
+    rewrite V4. cbn [flat_list]. rewrite flat_span, app_nil_r.
+    assert (Sin : inherit (style_of fs3') stk = style_of ((stk, k3) :: fs3')) by reflexivity.
+    rewrite Sin. change (view fs3' pk3 ++ flat_list (style_of ((stk, k3) :: fs3')) k3) with (view ((stk, k3) :: fs3') pk3).
+    rewrite V3, V2. unfold pview at 1. cbn [rev items_of_text flat_map view flat_list]. rewrite !app_nil_r.
+    rewrite V1. rewrite items_tag. f_equal.
+    cbn [style_of]. unfold stk. rewrite inherit_tag. rewrite (style_of_shape fs1 fs) by auto. reflexivity.
+  - intros c q body _ H. discriminate.
+  - intros k sy H. discriminate.
+  - (* nil *) intros _ _ pend fs pk X A. exists pend, fs, pk. cbn [print_nodes app items_list]. rewrite app_nil_r. auto.
+  - (* cons *) intros x l IHx IHl Ha Hw pend fs pk X A. cbn [forallb] in *.
+    apply andb_true_iff in Ha as [Ha1 Ha2]. apply andb_true_iff in Hw as [Hw1 Hw2].
+    cbn [print_nodes]. rewrite <- app_assoc.
+    destruct (IHx Ha1 Hw1 pend fs pk (print_nodes l ++ X) A) as (p1 & f1 & k1 & E1 & A1 & S1 & V1).
+    destruct (IHl Ha2 Hw2 p1 f1 k1 X A1) as (p2 & f2 & k2 & E2 & A2 & S2 & V2).
+    exists p2, f2, k2. rewrite E1, E2. repeat split; auto; try congruence.
+    rewrite V2, V1. cbn [items_list]. rewrite (style_of_shape f1 fs) by auto. rewrite app_assoc. reflexivity.
+Qed.
+
+(* ------------------------------------------------------------------ printed angle payloads contain no '{' and no CR *)
+Lemma lacks_app x a b : lacks x a -> lacks x b -> lacks x (a ++ b).
+Proof. unfold lacks. intros. rewrite forallb_app. apply andb_true_iff; auto. Qed.
+
+Lemma angle_print : forall p, forallb angle_node p = true -> forallb wf_node p = true ->
+  lacks 123 (print_nodes p) /\ no_cr (print_nodes p).
+Proof.
+  apply (nodes_ind2
+    (fun n => angle_node n = true -> wf_node n = true -> lacks 123 (print_node n) /\ no_cr (print_node n))
+    (fun p => forallb angle_node p = true -> forallb wf_node p = true -> lacks 123 (print_nodes p) /\ no_cr (print_nodes p))).
+  - intros c _ W. cbn [wf_node] in W. unfold plain_char in W. unfold lacks, no_cr. cbn [print_node forallb].
+    split; apply andb_true_iff; split; auto; lia.
+  - intros r H. discriminate.
+  - intros _ _. split; reflexivity.
+  - intros k sy body IH Ha Hw. rewrite angle_tag in Ha. apply andb_true_iff in Ha as [Hs Hb]. apply negb_true_iff in Hs.
+    rewrite wf_tag in Hw. destruct (IH Hb Hw) as [A B]. rewrite print_tag.
+    assert (O : lacks 123 (open_tag k sy) /\ no_cr (open_tag k sy) /\ lacks 123 (close_tag k sy) /\ no_cr (close_tag k sy)).
+    { destruct k, sy; try discriminate; repeat split. }
+    destruct O as (O1 & O2 & O3 & O4).
+    split; repeat (first [assumption | apply lacks_app | apply no_cr_app]).
+  - intros c q body _ H. discriminate.
+  - intros k sy H. discriminate.
+  - intros _ _. split; reflexivity.
+  - intros x l IHx IHl Ha Hw. cbn [forallb] in *.
+    apply andb_true_iff in Ha as [Ha1 Ha2]. apply andb_true_iff in Hw as [Hw1 Hw2].
+    destruct (IHx Ha1 Hw1), (IHl Ha2 Hw2). cbn [print_nodes]. split; [apply lacks_app|apply no_cr_app]; auto.
+Qed.
+
+(* C10_tags_scope at the level of one cue *)
+Theorem angle_payload_good p :
+  forallb angle_node p = true -> forallb wf_node p = true ->
+  has_sub [92;110;92;114] (print_nodes p) = false ->
+  payload_good p /\ no_cr (print_nodes p).
+Proof.
+  intros Ha Hw Hb. destruct (angle_print p Ha Hw) as [A B]. split; auto.
+  unfold payload_good. rewrite rw_id by auto.
+  unfold parse_text, tokenize.
+  destruct (forest_lemma p Ha Hw [] [] [] [] eq_refl) as (pend & fs & pk & E & L & S & V).
+  rewrite app_nil_r in E. rewrite E. cbn [tok].
+  destruct (handle_flush pend fs pk [] L) as (fs2 & pk2 & E2 & V2 & S2).
+  rewrite app_nil_r in E2. rewrite E2. cbn [handle].
+  rewrite S in S2. cbn [map] in S2. destruct fs2; [|discriminate].
+  eexists. split; [reflexivity|].
+  cbn [close_all]. rewrite app_nil_r. change (flat_list st0 pk2) with (view [] pk2).
+  rewrite V2, V. unfold pview. cbn [view flat_list rev items_of_text flat_map style_of app]. reflexivity.
+Qed.
+
+Lemma angle_cues_ok f : wf_file f = true -> angle_file f = true -> trigger_backslash f = false ->
+  Forall cue_ok (f_cues f).
+Proof.
+  unfold wf_file, angle_file, trigger_backslash. intros W P T. apply andb_true_iff in W as [_ W].
+  pose proof (wf_cues_each _ W) as E. clear W.
+  induction (f_cues f) as [|c cs IH]; [constructor|].
+  cbn [forallb existsb] in *. apply andb_true_iff in P as [P1 P2]. apply orb_false_iff in T as [T1 T2].
+  inversion E; subst. constructor; auto.
+  unfold cue_ok. apply angle_payload_good; auto. apply (w_nodes c H1).
+Qed.
+
+Theorem roundtrip_angle_file f : wf_file f = true -> f_final_eol f = true -> angle_file f = true ->
+  trigger_backslash f = false -> read_cues_file (print_file f) = Ok (cues f).
+Proof. intros. apply roundtrip_file; auto using angle_cues_ok. Qed.
+Theorem roundtrip_angle_lf f : wf_file f = true -> f_final_eol f = true -> f_crlf f = false -> angle_file f = true ->
+  trigger_backslash f = false -> read_cues (print_file f) = Ok (cues f).
+Proof. intros. apply roundtrip_lf; auto using angle_cues_ok. Qed.
+
+(* ------------------------------------------------------------------ tolerance *)
+
+Lemma same_content_cue c c' : same_content c c' -> cue_of c = cue_of c'.
+Proof.
+  intros ((A1 & A2 & A3 & A4) & (B1 & B2 & B3 & B4) & P). unfold cue_of, clock_seconds.
+  rewrite A1, A2, A3, A4, B1, B2, B3, B4, P. reflexivity.
+Qed.
+Lemma same_content_cues l l' : Forall2 same_content l l' -> map cue_of l = map cue_of l'.
+Proof. induction 1 as [|c c' l l' H _ IH]; [reflexivity|]. cbn [map]. rewrite (same_content_cue c c' H), IH. reflexivity. Qed.
+
+(* counters, leading / separating / trailing blank-line runs, 2- or 3-digit hours, the white space around the
+   arrow, the rest of the timing line and the line terminator have no influence on what is read *)
+Theorem tolerates f f' :
+  wf_file f = true -> wf_file f' = true -> f_final_eol f = true -> f_final_eol f' = true ->
+  angle_file f = true -> angle_file f' = true -> trigger_backslash f = false -> trigger_backslash f' = false ->
+  Forall2 same_content (f_cues f) (f_cues f') ->
+  read_cues_file (print_file f) = read_cues_file (print_file f') /\ read_cues_file (print_file f) = Ok (cues f).
+Proof.
+  intros. rewrite !roundtrip_angle_file by auto. split; auto. unfold cues. f_equal. apply same_content_cues; auto.
+Qed.
